@@ -97,7 +97,7 @@ _MAT_RULE = ('rapidcheck-generated 12-element states (AVX512: two interleaved st
              'distinct = distinct (kernel,state,coefficients) among non-trivial cases.')
 PROPS['C13'] = dict(
     title='AVX2 dot/sparse/dense 12-wide matrix kernels equal the product mod p',
-    jobs=[J('h_lanes', 'fast2', 1_200_000, 150_000_000, only='c13')],
+    jobs=[J('h_lanes', 'fast2', 1_200_000, 60_000_000, only='c13')],
     rule=_MAT_RULE, expected_classes=['mat:>=2-noncanonical-products-in-a-lane', 'mat:1-noncanonical-product', 'mat:noncanonical-state', 'mat:aligned-variant', 'mat:misaligned-array'],
     technique='rapidcheck property-based testing: product-targeted state/coefficient generators vs u128 matrix-vector reference',
     level_text='Generated-input search over the 11 AVX2 matrix kernels with operands constructed so that intermediate products and sums land in the non-canonical band; exact oracle. Sampling, not proof.',
@@ -106,7 +106,7 @@ PROPS['C13'] = dict(
 )
 PROPS['C14'] = dict(
     title='AVX512 dot/sparse/dense matrix kernels equal the product mod p, two states',
-    jobs=[J('h_lanes', 'fast5', 1_200_000, 150_000_000, only='c14')],
+    jobs=[J('h_lanes', 'fast5', 1_200_000, 60_000_000, only='c14')],
     rule=_MAT_RULE, expected_classes=['mat:>=2-noncanonical-products-in-a-lane', 'mat:1-noncanonical-product', 'mat:noncanonical-state'],
     technique='rapidcheck property-based testing on the -D__AVX512__ build: product-targeted generators vs u128 matrix-vector reference',
     level_text='Generated-input search over the 7 AVX512 matrix kernels (two interleaved states) with several non-canonical raw products per lane; exact oracle. Sampling, not proof.',
@@ -284,8 +284,8 @@ HARNESSES['h_wrappers'] = dict(src='h_wrappers.cpp', deps=['harness/c17_table.in
 
 PROPS['C17'] = dict(
     title='Strided/offset/broadcast base-field wrappers and bulk copies move the right data',
-    jobs=[J('h_wrappers', 'fast5', 1_600_000, 160_000_000, only='c17.copy,c17.add,c17.sub,c17.mul', wq=16, wt=16, tag='rows'),
-          J('h_wrappers', 'fast2', 400_000, 40_000_000, only='c17.copy,c17.add,c17.sub,c17.mul', wq=8, wt=16, tag='rows', class_prefix='avx2-build:'),
+    jobs=[J('h_wrappers', 'fast5', 1_600_000, 60_000_000, only='c17.copy,c17.add,c17.sub,c17.mul', wq=16, wt=16, tag='rows'),
+          J('h_wrappers', 'fast2', 400_000, 15_000_000, only='c17.copy,c17.add,c17.sub,c17.mul', wq=8, wt=16, tag='rows', class_prefix='avx2-build:'),
           J('h_wrappers', 'fast2', 24_000, 1_000_000, only='c17.par', wq=16, wt=16, tag='par')],
     rule='One table row per live overload of copy/add/sub/mul x _batch/_avx/_avx512 (164 rows, derived from the declarations in goldilocks_base_field.hpp by tools/gen_c17.py: operand shapes read off parameter types, order and names; '
          '191 declarations counting the 26 commented-out ones; add_batch(Element*, const Element*, const Element*, const uint64_t[4]) is declared but has no definition anywhere: no body to test). '
@@ -305,8 +305,8 @@ HARNESSES['h_cubic_batch'] = dict(src='h_cubic_batch.cpp', deps=['harness/c16_ta
 
 PROPS['C16'] = dict(
     title='Every batched/AVX2/AVX512 cubic-extension variant equals the scalar operation',
-    jobs=[J('h_cubic_batch', 'fast5', 1_600_000, 160_000_000, wq=16, wt=16),
-          J('h_cubic_batch', 'fast2', 400_000, 40_000_000, wq=8, wt=16, class_prefix='avx2-build:')],
+    jobs=[J('h_cubic_batch', 'fast5', 1_600_000, 100_000_000, wq=16, wt=16),
+          J('h_cubic_batch', 'fast2', 400_000, 25_000_000, wq=8, wt=16, class_prefix='avx2-build:')],
     rule='One table row per overload of the add/sub/mul families of Goldilocks3 (156 rows: batch, avx, avx512; derived from the function heads by tools/gen_c16.py: operation, operand dimensions and constness from the name '
          '(13, 31, 33c, 1c3c, 13c, 31c; default 33), operand storage from the parameter types (interleaved array, array with uniform stride or per-element index array, constant array, base scalar, constant extension reference, '
          'one register, planar Element_avx, three separate registers, precomputed challenge sums as array or registers), strides from the parameter names). A generic driver draws coefficient pools from the boundary element classes, '
@@ -331,15 +331,15 @@ PROPS['C18'] = dict(
         # Poseidon: sponge lengths, tree shapes (AVX512 build: two rows per call), permutation
         J('h_poseidon', 'san5', 1, 1, only='c07.lengths,c08.enum,c06.kat', wq=16, wt=16, args=['--enumerate', '--level', '0'], tiers=['quick'], tag='enum', crash_only=True, class_prefix='poseidon:'),
         J('h_poseidon', 'san5', 1, 1, only='c07.lengths,c08.enum,c06.kat', wq=16, wt=16, args=['--enumerate', '--level', '1'], tiers=['thorough'], tag='enum', crash_only=True, class_prefix='poseidon:'),
-        J('h_poseidon', 'san5', 12_000, 1_000_000, only='c06.perm,c07.random,c08.random', wq=8, wt=16, tag='rnd', crash_only=True, class_prefix='poseidon:'),
+        J('h_poseidon', 'san5', 12_000, 300_000, only='c06.perm,c07.random,c08.random', wq=8, wt=16, tag='rnd', crash_only=True, class_prefix='poseidon:'),
         J('h_poseidon', 'san2', 1, 1, only='c07.lengths,c08.enum', wq=8, wt=16, args=['--enumerate', '--level', '0'], tag='enum', crash_only=True, class_prefix='poseidon-avx2:'),
         # kernels with exact-size coefficient arrays; cubic extension (batchInverse VLAs); all 164 + 156 overloads in exact-size arenas
-        J('h_lanes', 'san5', 60_000, 10_000_000, only='c13,c14', wq=6, wt=16, crash_only=True, class_prefix='matrix:'),
-        J('h_cubic', 'san2', 150_000, 15_000_000, wq=4, wt=16, crash_only=True, class_prefix='cubic:'),
-        J('h_cubic_batch', 'san5', 160_000, 30_000_000, wq=8, wt=16, crash_only=True, class_prefix='cubic-batch:'),
-        J('h_wrappers', 'san5', 120_000, 30_000_000, only='c17.copy,c17.add,c17.sub,c17.mul', wq=8, wt=16, tag='rows', crash_only=True, class_prefix='wrappers:'),
+        J('h_lanes', 'san5', 60_000, 3_000_000, only='c13,c14', wq=6, wt=16, crash_only=True, class_prefix='matrix:'),
+        J('h_cubic', 'san2', 150_000, 5_000_000, wq=4, wt=16, crash_only=True, class_prefix='cubic:'),
+        J('h_cubic_batch', 'san5', 160_000, 6_000_000, wq=8, wt=16, crash_only=True, class_prefix='cubic-batch:'),
+        J('h_wrappers', 'san5', 120_000, 6_000_000, only='c17.copy,c17.add,c17.sub,c17.mul', wq=8, wt=16, tag='rows', crash_only=True, class_prefix='wrappers:'),
         J('h_wrappers', 'san2', 4000, 200_000, only='c17.par', wq=8, wt=16, tag='par', crash_only=True, class_prefix='wrappers:'),
-        J('h_scalar2', 'san2', 200_000, 20_000_000, only='c15', wq=4, wt=8, crash_only=True, class_prefix='conversions:'),
+        J('h_scalar2', 'san2', 200_000, 10_000_000, only='c15', wq=4, wt=8, crash_only=True, class_prefix='conversions:'),
         # uninitialised stack reads: pattern-initialised automatic variables must not change any result (oracle = the functional oracles)
         J('h_ntt', 'init2', 4000, 200_000, only='c19.history,c05.random', wq=8, wt=16, args=['--level', '0'], tiers=['thorough'], tag='rnd', crash_only=True, class_prefix='autoinit:ntt:'),
         J('h_poseidon', 'init2', 20_000, 1_000_000, only='c06.perm,c07.random,c08.random', wq=8, wt=16, tiers=['thorough'], tag='rnd', crash_only=True, class_prefix='autoinit:poseidon:'),
